@@ -3,6 +3,7 @@ mod model;
 mod pipe;
 mod report;
 mod rustc_oracle;
+mod sched;
 mod spaces;
 mod spec;
 mod synx;
@@ -44,6 +45,8 @@ fn main() {
                 2
             }
         },
+        "C09" => checks::c09::run(&tier, only.as_ref()),
+        "C10" => checks::c10::run(&tier, only.as_ref()),
         "C08" => checks::c08::run(&tier, only.as_ref()),
         "C03" => checks::c03::run(&tier, only.as_ref()),
         _ => {
